@@ -704,6 +704,108 @@ impl<'a> Nh<'a> {
     }
 
     /// zero-sized key and value
+    /// Elements WITH drop glue that do not allocate themselves (a destructor that bumps a counter): whatever a
+    /// container does differently for `needs_drop` types must not involve the allocator either.
+    pub fn dropglue<const N: usize, const M: usize>(&mut self, hist: u64, mut rng: Rng) {
+        use std::sync::atomic::{AtomicU64, Ordering};
+        static DROPS: AtomicU64 = AtomicU64::new(0);
+        #[derive(PartialEq, Eq, Debug)]
+        struct DK(u32);
+        impl Drop for DK {
+            fn drop(&mut self) {
+                DROPS.fetch_add(1, Ordering::Relaxed);
+            }
+        }
+        impl Clone for DK {
+            fn clone(&self) -> Self {
+                DK(self.0)
+            }
+        }
+        #[derive(PartialEq, Debug, Default)]
+        struct DV(u32);
+        impl Drop for DV {
+            fn drop(&mut self) {
+                DROPS.fetch_add(1, Ordering::Relaxed);
+            }
+        }
+        impl Clone for DV {
+            fn clone(&self) -> Self {
+                DV(self.0)
+            }
+        }
+        self.hist = hist;
+        self.descr = format!("history {} Map<DK,DV,{}> / Set<DK,{}> (elements with drop glue, no heap)", hist, N, M);
+        let mut m: Map<DK, DV, N> = win!(self, "Map::new", Map::new());
+        let fill = 1 + rng.usize_below(N);
+        for i in 0..fill {
+            let _ = win!(self, "insert", m.insert(DK(i as u32), DV(7)));
+        }
+        let _ = win!(self, "insert", m.insert(DK(0), DV(8)));
+        let _ = win!(self, "insert_key_value", m.insert_key_value(DK(0), DV(9)));
+        let _ = win!(self, "checked_insert", m.checked_insert(DK(0), DV(10)));
+        let _ = win!(self, "get", m.get(&DK(0)).map(|x| x.0));
+        let _ = win!(self, "get_mut", m.get_mut(&DK(0)).map(|x| x.0 += 1));
+        win!(self, "entry", {
+            *m.entry(DK(0)).or_insert(DV(1)) = DV(2);
+            m.entry(DK(0)).and_modify(|x| x.0 += 1).or_default();
+        });
+        let c = win!(self, "clone", m.clone());
+        let _ = win!(self, "eq", c == m);
+        win!(self, "into_iter", {
+            let mut it = c.into_iter();
+            let _ = it.next();
+        });
+        let c2 = m.clone();
+        win!(self, "into_values", {
+            let mut it = c2.into_values();
+            let _ = it.next();
+        });
+        if rng.chance(1, 2) {
+            let _ = win!(self, "remove", m.remove(&DK(0)));
+        }
+        win!(self, "retain", m.retain(|k, _| k.0 % 2 == 0));
+        let mut c3 = m.clone();
+        win!(self, "drain", {
+            let mut d = c3.drain();
+            let _ = d.next();
+        });
+        let mut c4 = m.clone();
+        win!(self, "clear", c4.clear());
+        win!(self, "clear", m.clear());
+        win!(self, "drop(map)", drop(m));
+        let mut s: Set<DK, M> = win!(self, "Set::new", Set::new());
+        let mut t: Set<DK, M> = Set::new();
+        let sf = 1 + rng.usize_below(M);
+        for i in 0..sf {
+            let _ = win!(self, "Set::insert", s.insert(DK(i as u32)));
+            if i % 2 == 0 {
+                t.insert(DK(i as u32));
+            }
+        }
+        let _ = win!(self, "Set::replace", s.replace(DK(0)));
+        let _ = win!(self, "Set::contains", s.contains(&DK(0)));
+        let _ = win!(self, "Set::union", s.union(&t).count());
+        let _ = win!(self, "Set::intersection", s.intersection(&t).count());
+        let _ = win!(self, "Set::difference", s.difference(&t).count());
+        let _ = win!(self, "Set::symmetric_difference", s.symmetric_difference(&t).count());
+        let _ = win!(self, "Set::predicates", (s.is_subset(&t), s.is_superset(&t), s.is_disjoint(&t)));
+        let d: Set<DK, M> = win!(self, "Set::sub", &s - &t);
+        win!(self, "Set::clone+eq", {
+            let c = s.clone();
+            let _ = c == s;
+        });
+        let _ = win!(self, "Set::take", s.take(&DK(0)));
+        win!(self, "Set::retain", s.retain(|k| k.0 % 2 == 1));
+        win!(self, "Set::drain", {
+            let mut dr = t.drain();
+            let _ = dr.next();
+        });
+        win!(self, "Set::clear", s.clear());
+        win!(self, "drop(set)", drop((s, t, d)));
+        self.cx.rep.hit("drop-glue-elements");
+        self.flush();
+    }
+
     pub fn zst<const N: usize>(&mut self) {
         use support::elems::{z_set_eq, Z};
         self.descr = format!("Map<Z,(),{}>", N);
